@@ -1008,6 +1008,9 @@ buildCommand(BuildContext& context, ninja::Command* command) {
       // shouldn't run this command.
       if (!value.isExistingInput() && !value.isSuccessfulCommand()) {
         shouldSkip = true;
+        // A command which must be skipped can never be brought up-to-date
+        // without running.
+        canUpdateIfNewer = false;
         if (value.isMissingInput()) {
           hasMissingInput = true;
 
